@@ -68,9 +68,12 @@ def execute(case, ctx):
         crashes.append(f"{where} raised {short_exc(e)}")
         ctx.probe("filtered_history_crashed")
 
-    for k in range(cfg["rollouts"]):
+    # half of the searches start with a purely random filtered episode on the same dispatcher (a tree search or a
+    # learning loop does many before it finds the best one); it counts like any other rollout
+    first = -(cfg["search_seed"] % 4)  # 0..3 random episodes first
+    for k in range(first, cfg["rollouts"]):
         remaining = list(order)
-        p_rand = 0.0 if k == 0 else 0.3
+        p_rand = 1.0 if k < 0 else (0.0 if k == 0 else 0.3)
         dead_end = False
         try:
             d.reset()
@@ -125,7 +128,7 @@ def execute(case, ctx):
         if mk < opt:
             raise Foreign("C01", f"a dispatcher history reached makespan {mk} below the exact optimum {opt}")
         best = mk if best is None else min(best, mk)
-        if mk == opt:
+        if mk == opt and k >= 0:
             ctx.probe("witness_by_seeded_search" if k else "witness_by_first_guided_rollout")
             break
     ctx.event(0, "search", n, opt, best if best is not None else "dead-end")
